@@ -373,6 +373,22 @@ pub fn run(tier: Tier) -> i32 {
             }
         }
     }
+    // well-framed packets with every small payload size 1..=40 bytes (not a multiple of a word or slot), two contents
+    {
+        let w = &ws[0];
+        let clean: Vec<(u64, fp_model::grammar::PacketT)> = fp_model::grammar::interleave(&w.links, &w.order).packets;
+        for k in 1..=40usize {
+            for fill in [0x00u8, 0xE0] {
+                let mut pk: Vec<fp_model::stream::Packet> = clean.iter().take(3).map(|(_, p)| p.packet.clone()).collect();
+                let mut payload = vec![fill; k];
+                if k >= 10 {
+                    payload[9] = 0xE0; // looks like an IHW
+                }
+                pk[1] = fp_model::stream::Packet::framed(pk[1].rdh.clone(), payload);
+                inputs.push((format!("memory_size = offset = 64 + {k} (payload of {k} bytes of {fill:#04x})"), pk.iter().flat_map(|p| p.bytes()).collect()));
+            }
+        }
+    }
     // every input of length 0..=8 over {0x00, 0x07, 0x40, 0xFF} (thorough: all; quick: lengths 0..=4 + constant runs)
     let vals = [0x00u8, 0x07, 0x40, 0xFF];
     let maxlen = if tier.is_thorough() { 8 } else { 3 };
